@@ -786,3 +786,43 @@ class SymHashSet:
 
     def pop(self):
         return self.items.pop()
+
+
+class UFSeq(SymSeq):
+    """A list of symbolic length whose elements are values of an uninterpreted function f(k); `lo` bounds each
+    element (asserted at every instantiation).  sum_upto(j) is the spec function  S(0)=0, S(j+1)=S(j)+f(j),
+    whose recurrence is instantiated where a loop invariant needs it."""
+
+    is_list = True
+
+    def __init__(self, name, length, lo=None):
+        self.name = name
+        self.m = length
+        self.lo = lo
+        self.f = z3.Function(f"{name}_elem", z3.IntSort(), z3.IntSort())
+        self.S = z3.Function(f"{name}_sum_upto", z3.IntSort(), z3.IntSort())
+
+    def length(self):
+        return self.m
+
+    def get(self, interp, k):
+        v = wrap(self.f(tz(k)))
+        if self.lo is not None:
+            interp.ctx.assume(tz(v) >= tz(self.lo))
+        return v
+
+    def sum_upto(self, interp, j):
+        ctx = interp.ctx
+        jz = tz(j)
+        ctx.assume(self.S(z3.IntVal(0)) == 0)
+        if self.lo is not None and isinstance(self.lo, int) and self.lo >= 0:
+            ctx.assume(z3.Implies(jz >= 0, self.S(jz) >= 0))
+        return wrap(self.S(jz))
+
+    def sum_step(self, interp, j):
+        """instantiate S(j+1) == S(j) + f(j)"""
+        jz = tz(j)
+        interp.ctx.assume(self.S(jz + 1) == self.S(jz) + self.f(jz))
+
+    def total(self, interp):
+        return self.sum_upto(interp, self.m)
